@@ -8,7 +8,9 @@ SHRINK_BUDGET = 150
 EXTRA_MODULES = ("Sentinel.Lemmas.HotConc", "Sentinel.Lemmas.HotConcCap")
 SIZES = {"quick": 6000, "thorough": 120000}
 BATCH = 3000
-RULE = ("per case 1-4 hotspot rules (mostly MetricType=Concurrency; general threshold from {0,1,1,2,3}, 0-2 specific items with "
+RULE = ("[plus a real-parallelism phase: 8 (thorough 20) `storm` cases, 20k (200k) rounds in all, each round = 2-6 goroutines "
+        "calling api.Entry for one fresh value at once under GOMAXPROCS>1, their exits, and a sequential probe that must admit exactly "
+        "the threshold] per case 1-4 hotspot rules (mostly MetricType=Concurrency; general threshold from {0,1,1,2,3}, 0-2 specific items with "
         "thresholds from {0,1,2,5,-1}; ParamIndex from {0,1,-1,-2,2}, ParamKey '' / k / u incl. the invalid index>0+key combination and "
         "negative thresholds; ParamsMaxCapacity from {0 (=4000),1,2,3,8}; sometimes two rules on one resource, sometimes an inert QPS rule) on "
         "1-3 resources; in 35% of the cases QPS rules (Reject with a generous threshold, Throttling that queues every closely following "
@@ -280,6 +282,49 @@ def gen(ctx, n):
     return [gen_case(ctx.rng, f"g{ctx.seed}-{ctx.rng.randrange(10**9)}", big=(ctx.rng.random() < 0.03)) for _ in range(n)]
 
 
+STORM_ROUNDS = {"quick": 20000, "thorough": 200000}
+
+
+def storm_cases(ctx):
+    """real-parallelism cases (`storm`): G goroutines enter one fresh value at once, exit, then a sequential probe must
+    find the value's cell back at 0 (it admits exactly the threshold).  Deterministic on correct code whatever the schedule."""
+    rng = ctx.rng
+    ncases = 8 if ctx.tier == "quick" else 20
+    per = STORM_ROUNDS[ctx.tier] // ncases
+    cases = []
+    for i in range(ncases):
+        g = [2, 3, 4, 2, 3, 4, 2, 6][i % 8]
+        thr = rng.choice([1, 1, 2, 3])
+        kind = rng.choice(["c", "c", "ct"])
+        pmc = rng.choice([0, 0, 1, 2, 8])
+        idx = rng.choice([0, 0, -1])
+        rules = [f"r1;{kind};{idx};;{thr};{pmc};"]
+        if rng.random() < 0.4:
+            rules.insert(rng.choice([0, 1]), f"r1;c;{rng.choice([0, -1])};;{rng.choice([1, 2, 4])};{rng.choice([0, 3])};i:7=1")
+        if rng.random() < 0.3:
+            rules.append(f"r2;c;0;;1;0;")
+        ops = ["load " + " ".join(rules)]
+        # some ordinary traffic first (other values, all exited before the storm)
+        for k in range(rng.choice([0, 0, 2, 4])):
+            ops += [f"entry w{k} r1 s:a", f"exit w{k}"]
+        ops.append(f"storm r1 {rng.choice(['i', 's'])} {g} {per}")
+        cases.append(Case(f"storm{ctx.seed}-{i}", ops, tags=("storm", f"g={g}", f"thr={thr}")))
+    return cases
+
+
+def _storm_phase(ctx, eng):
+    cases = storm_cases(ctx)
+    eng.check(cases, "storm")
+    ctx.cov["storm"] = {"cases": len(cases), "rounds": sum(int(c.ops[-1].split()[-1]) for c in cases),
+                        "goroutines": sorted({int(c.ops[-1].split()[-2]) for c in cases})}
+
+
+def run(ctx):
+    import sys
+    from vlib import std
+    return std.run(ctx, sys.modules[__name__], extra=_storm_phase)
+
+
 def corpus():
     import glob, os
     from vlib.core import ROOT
@@ -369,7 +414,7 @@ def nontrivial(case, impl):
 
 
 META = {
-    "technique": "Lean 4 proof (inductive invariant over entry/exit histories of the code-shaped LRU-cell model) + differential correspondence model/impl + trace oracle",
+    "technique": "Lean 4 proof (inductive invariant over entry/exit histories of the code-shaped LRU-cell model) + differential correspondence model/impl + trace oracle + real-parallelism storm phase with a schedule-independent observation",
     "level_text": ("Theorems in lean/Sentinel/Props/C06.lean, kernel-checked for every rule set, every argument list and every history of entries "
                    "and exits in any order: while a rule's counter cache has not evicted, the cell of every value equals the number of live entries "
                    "admitted with it (cell_eq_live), admission is exactly live(v) < threshold(v) for every value and every threshold incl. 0 "
